@@ -69,8 +69,8 @@ func init() {
 				n = 30000
 			}
 			return fw.Meta{N: n, Level: "exploration", Chunk: 50, CaseTimeoutS: 120, MinNT: 200,
-				Rule: "one case = one file written by the real writer (0..25 records: nil, empty, random, compressible, marker-laden, a few with stored length >= 16 KiB / >= 2 MiB varint groups) under each of the 4 compression types; differential oracle: Kaitai-generated reader vs native sequential reader vs the harness's independent layout parser: parse succeeds, same record count, same nil flags, payload == stored bytes, decompress(stored) == native record, header compression code maps to the enum constant of the same algorithm. Non-trivial: compressed file with >=1 nil and >=1 empty record, or any file with >=3 records; distinct by content hash",
-				MinObs: map[string]int64{"records_compared": 5000, "nil_records_in_compressed_files": 100, "empty_records_in_compressed_files": 100, "files_gzip": 50, "files_snappy": 50, "files_lzw": 50, "files_none": 50, "three_group_lengths": 5},
+				Rule:        "one case = one file written by the real writer (0..25 records: nil, empty, random, compressible, marker-laden, a few with stored length >= 16 KiB / >= 2 MiB varint groups) under each of the 4 compression types; differential oracle: Kaitai-generated reader vs native sequential reader vs the harness's independent layout parser: parse succeeds, same record count, same nil flags, payload == stored bytes, decompress(stored) == native record, header compression code maps to the enum constant of the same algorithm. Non-trivial: compressed file with >=1 nil and >=1 empty record, or any file with >=3 records; distinct by content hash",
+				MinObs:      map[string]int64{"records_compared": 5000, "nil_records_in_compressed_files": 100, "empty_records_in_compressed_files": 100, "files_gzip": 50, "files_snappy": 50, "files_lzw": 50, "files_none": 50, "three_group_lengths": 5},
 				Assumptions: []string{"the Go reader generated from the schema (kaitai/gokaitai) stands for the schema; kaitai-struct-compiler is not available offline"},
 			}
 		},
